@@ -79,14 +79,15 @@ class Prop(PropBase):
                     for f in frs:
                         s.lines.append(f'F 0 {len(f)} {f.hex()}')
                 elif kind == 'tot_lt_ihl':
-                    if rng.random() < 0.5:
-                        f = udp_frame(b'', msop, raw_ip_payload=bytes(16), tot_len=rng.choice([0, 8, 19]), more=rng.random() < 0.5, ip_id=7)
-                    else:
-                        # a header with options whose total length covers the fixed 20 bytes but not the options
-                        hl = rng.choice([6, 7, 10, 15])
-                        f = udp_frame(b'', msop, raw_ip_payload=(6699).to_bytes(2, 'big') + msop.to_bytes(2, 'big') + bytes(20), ihl=hl,
-                                      tot_len=rng.choice([20, 22, hl * 4 - 1, hl * 4 - 4]), more=rng.random() < 0.4, ip_id=7)
+                    f = udp_frame(b'', msop, raw_ip_payload=bytes(16), tot_len=rng.choice([0, 8, 19]), more=rng.random() < 0.5, ip_id=7)
                     s.lines.append(f'F 0 {len(f)} {f.hex()}')
+                    # headers with options whose total length covers the fixed 20 bytes but not the options: every such length,
+                    # unfragmented and as a first fragment
+                    hl = rng.choice([6, 7, 10, 15])
+                    for tl in (20, 22, hl * 4 - 1, hl * 4 - 4):
+                        for more in (False, True):
+                            f = udp_frame(b'', msop, raw_ip_payload=(6699).to_bytes(2, 'big') + msop.to_bytes(2, 'big') + bytes(20), ihl=hl, tot_len=tl, more=more, ip_id=7)
+                            s.lines.append(f'F 0 {len(f)} {f.hex()}')
                 elif kind == 'overflow':
                     # fragments of one id whose fill level passes 64 KiB
                     off = 0
